@@ -6,3 +6,7 @@ ASSUMPTIONS = c11.ASSUMPTIONS + ["TLS session resumption: Go's crypto/tls does n
 
 def run(ctx):
     c11.run(ctx, name="C12")
+    # revocation against handshakes at every stage (TLS done but no upgrade yet, resumed TLS sessions), updates to the empty list
+    # and with repeated keys, the key store's Replace: C03's harness over real sockets
+    import props.C03 as c03
+    c03.run(ctx)
